@@ -22,6 +22,7 @@ import (
 	"seata.apache.org/seata-go/pkg/protocol/message"
 	"seata.apache.org/seata-go/pkg/remoting/loadbalance"
 	rmclient "seata.apache.org/seata-go/pkg/remoting/processor/client"
+	"seata.apache.org/seata-go/pkg/remoting/rpc"
 	"seata.apache.org/seata-go/pkg/rm"
 	"seata.apache.org/seata-go/pkg/rm/tcc"
 	fencehandler "seata.apache.org/seata-go/pkg/rm/tcc/fence/handler"
@@ -67,9 +68,45 @@ func c20FirstUse() {
 	wg.Wait()
 }
 
+// c20FenceAndCounters: (a) several branches whose try is delivered twice, at the same time, through the TCC fence
+// (the second delivery of each meets the record of the first: the handler notes it for cleaning); (b) requests
+// counted in and out per coordinator while the least-active policy reads the counters. What it finds are
+// race-detector reports.
+func c20FenceAndCounters() {
+	fw := newFenceWorld()
+	defer fw.close()
+	var wg sync.WaitGroup
+	for g := 0; g < 6; g++ {
+		wg.Add(1)
+		go func(g int) {
+			defer wg.Done()
+			for k := 0; k < 4; k++ {
+				fw.deliverKeepFaults(int64(100+g), 'P') // (the first of them is applied, the others are duplicates)
+			}
+		}(g)
+	}
+	for g := 0; g < 4; g++ {
+		wg.Add(1)
+		go func(g int) {
+			defer wg.Done()
+			for k := 0; k < 200; k++ {
+				addr := fmt.Sprintf("10.8.0.%d:8091", k%2)
+				if g%2 == 0 {
+					rpc.BeginCount(addr)
+					rpc.EndCount(addr)
+				} else {
+					_ = rpc.GetStatus(addr).GetActive()
+				}
+			}
+		}(g)
+	}
+	wg.Wait()
+}
+
 func runC20(c *Ctx) {
 	if c.Only == "" {
 		c20FirstUse()
+		c20FenceAndCounters()
 	}
 	w := GetATWorld()
 	xa := w.OpenXA()
